@@ -61,9 +61,9 @@ Definition comp_mode (k : string) : mode :=
   else if String.eqb k "'coordinate_conversion'" then MCopy
   else if String.eqb k "'constructs'" then MCopy
   else if String.eqb k "'compressed_Array'" then MCopy
-  else if String.eqb k "'count_variable'" then MCopy
-  else if String.eqb k "'index_variable'" then MCopy
-  else if String.eqb k "'list_variable'" then MCopy
+  else if String.eqb k "'count_variable'" then MDeep        (* data/abstract/raggedarray.py:111-114: _set_component(copy=True) *)
+  else if String.eqb k "'index_variable'" then MDeep
+  else if String.eqb k "'list_variable'" then MDeep         (* data/gatheredarray.py:120 *)
   else MShare.   (* scalars, strings, tuples; file-array 'attributes' / 'storage_options' dicts *)
 
 (* instance attributes (__dict__), by class *)
